@@ -12,6 +12,7 @@ from rustlex import scan_items, match_bracket, strip_comments, next_token_pos, L
 
 REPO = os.environ.get('VERIF_REPO', '/repo')
 VERIF = os.path.dirname(os.path.dirname(os.path.abspath(__file__)))
+VACUITY = bool(os.environ.get('VERIF_VACUITY'))   # set by the driver for the probe run only
 GEN = os.environ.get('VERIF_GEN_DIR') or os.path.join(VERIF, 'gen')   # VERIF_GEN_DIR: scratch runs (seeded-change triage in parallel) only
 
 
@@ -377,6 +378,15 @@ class Unit:
                 body = body.replace(anchor, ins)
             else:
                 raise ValueError(where)
+        if VACUITY:
+            # vacuity probe (thorough tier): `assert(false)` at the normal exit and before every statement-position `return`; the
+            # contract is unchanged (callers still see the real contract).  EVERY probe must FAIL: a probe that verifies sits on an
+            # exit that no state satisfying the preconditions / loop clauses / callee contracts can reach.
+            probe = 'proof { assert(false); }  // @vacuity-probe %s' % qname
+            body = re.sub(r'(?m)^(\s*)(return\b)', lambda m: m.group(1) + probe + '\n' + m.group(1) + m.group(2), body)
+            ob = body.index('{')
+            cb = body.rstrip().rfind('}')
+            body = body[:ob] + '{\n    let vac_result = ' + body[ob:cb + 1] + ';\n    ' + probe + '\n    vac_result\n}' + body[cb + 1:]
         return attrs + sig + '\n' + contract + body + '\n'
 
     def _rewrite(self, text, pat, rep, cnt, name, stats):
